@@ -25,3 +25,10 @@ def run(chk):
     chk.assume('datatype objects re-encode their own text (TM/DTM %f slicing, Decimal printing, strftime) -- run-time values, declined')
     chk.assume('trailing-empty trimming versus the canonical form is value dependent, declined')
     chk.exhaustive = True
+
+    chk.rule('C01-D', 'decision structure of the functions this property is anchored in: every effect statement (store, call, return, '
+                   'raise) runs under the same combinations of the function\'s elementary tests as in the reviewed tree, and none '
+                   'was deleted (reference/decisions.json; compared by meaning, rewritten functions are not compared)')
+    from . import guardrules as _gr
+    nd2_ = _gr.check_decisions(chk, c, 'C01-D', lambda fq_: fq_.startswith(('parser.parse_segment', 'parser.parse_field', 'parser.parse_component', 'parser.parse_subcomponent')))
+    chk.floor('functions compared with the decision reference (C01-D)', nd2_, 1)
